@@ -402,8 +402,10 @@ class SQLLineageHolder(ColumnLineageMixin):
                     key=lambda pair: holder.graph.edges[pair].get(EdgeTag.INDEX, 0),
                 ):
                     g = nx.relabel_nodes(g, {table_old: table_new})
-                    g.remove_edge(table_new, table_new)
-                    if g.degree[table_new] == 0:
+                    # an earlier pair of the same statement may already have removed either end (`a to b, b to a`)
+                    if g.has_edge(table_new, table_new):
+                        g.remove_edge(table_new, table_new)
+                    if g.has_node(table_new) and g.degree[table_new] == 0:
                         g.remove_node(table_new)
             else:
                 read, write = holder.read, holder.write
